@@ -736,7 +736,7 @@ class Exec(Engine):
             if isinstance(a, VAny):
                 return z3.Function('is_%s_any' % ('true' if is_true(b.t) else 'false'), IntS, BoolS)(a.t)
             return FALSE
-        if isinstance(a, (VRef, VList, VRec)) and type(a) is type(b):
+        if isinstance(a, (VRef, VList, VRec, VMap)) and type(a) is type(b):
             return a.t == b.t
         if isinstance(a, VStr) and isinstance(b, VStr) and st.spec:
             # specification only: "is the same string value" = the same view (array, offset, length)
